@@ -89,6 +89,7 @@ int max_num_locals = 0;
 
 #ifdef NEOLITH_VERIF
 void (*verif_compiler_trace)(const char *event, long cursor, long size) = 0;
+void *verif_compiler_trace_subject = 0;
 #endif
 
 static void init_locals();
@@ -361,9 +362,15 @@ static void copy_function (program_t * prog, function_index_t index,
 
   /* add the identifier */
   ihe = find_or_add_ident (defprog->function_table[defindex].name, FOA_GLOBAL_SCOPE);
+#ifdef NEOLITH_VERIF
+  VERIF_CTRACE_IHE ("ident.pre", ihe, ihe->dn.function_num, ihe->sem_value);
+#endif
   if (ihe->dn.function_num == -1)
     ihe->sem_value++;
   ihe->dn.function_num = (function_index_t)where;
+#ifdef NEOLITH_VERIF
+  VERIF_CTRACE_IHE ("ident.bind.fn", ihe, ihe->dn.function_num, ihe->sem_value);
+#endif
 }
 
 int lookup_class_member (int which, const char *name, lpc_type_t *type) {
@@ -462,6 +469,9 @@ void copy_structures (program_t * prog) {
       str = prog->strings[prog->classes[i].name];
       sd[i].name = store_prog_string (str);
       ihe = find_or_add_ident (str, FOA_GLOBAL_SCOPE);
+#ifdef NEOLITH_VERIF
+      VERIF_CTRACE_IHE ("ident.pre", ihe, ihe->dn.class_num, ihe->sem_value);
+#endif
       if (ihe->dn.class_num == -1)
         ihe->sem_value++;
       else
@@ -476,6 +486,9 @@ void copy_structures (program_t * prog) {
           yyerror (buf);
         }
       ihe->dn.class_num = (short)(i + sd_off);
+#ifdef NEOLITH_VERIF
+      VERIF_CTRACE_IHE ("ident.bind.class", ihe, ihe->dn.class_num, ihe->sem_value);
+#endif
     }
 
   sme = (class_member_entry_t *) allocate_in_mem_block (A_CLASS_MEMBER, sizeof (class_member_entry_t) * num);
@@ -1060,9 +1073,15 @@ function_number_t define_new_function (char *name, int num_arg, int num_local, u
         {
           runtime_num = add_new_function_entry ();
           ihe = find_or_add_ident (funp->name, FOA_GLOBAL_SCOPE);
+#ifdef NEOLITH_VERIF
+          VERIF_CTRACE_IHE ("ident.pre", ihe, ihe->dn.function_num, ihe->sem_value);
+#endif
           if (ihe->dn.function_num == -1)
             ihe->sem_value++;
           ihe->dn.function_num = (function_index_t)runtime_num;
+#ifdef NEOLITH_VERIF
+          VERIF_CTRACE_IHE ("ident.bind.fn", ihe, ihe->dn.function_num, ihe->sem_value);
+#endif
           FUNCTION_ALIAS (runtime_num) = 0;
         }
     }
@@ -1109,6 +1128,9 @@ int define_variable (char *name, int type, int hide) {
   n = (int)(mem_block[A_VAR_TEMP].current_size / sizeof (variable_t));
 
   ihe = find_or_add_ident (name, FOA_GLOBAL_SCOPE);
+#ifdef NEOLITH_VERIF
+  VERIF_CTRACE_IHE ("ident.pre", ihe, ihe->dn.global_num, ihe->sem_value);
+#endif
   if (ihe->dn.global_num == -1)
     {
       ihe->sem_value++;
@@ -1140,6 +1162,9 @@ int define_variable (char *name, int type, int hide) {
         ihe->dn.global_num = (short)n;
     }
 
+#ifdef NEOLITH_VERIF
+  VERIF_CTRACE_IHE ("ident.bind.global", ihe, ihe->dn.global_num, ihe->sem_value);
+#endif
   dummy =
     (variable_t *) allocate_in_mem_block (A_VAR_TEMP, sizeof (variable_t));
   dummy->name = name;
